@@ -28,6 +28,20 @@ INFO = {
  'C12b': ('C12', "`if curr_t >= out_t: ys.append(curr_y)` fast path: later outputs inside an already-taken step are not interpolated", "two or more output times strictly inside the same step"),
  'C14b': ('C14', "_rms for sequences: mean over batch rows of per-row RMS instead of the RMS over all elements", "batch size > 1 with different per-row errors: error norm under-estimated, steps with error > 1 accepted"),
  'C19b': ('C19', "_select_default_adjoint_method tests `method == adjoint_reversible_heun` instead of `reversible_heun`", "sdeint_adjoint(method='reversible_heun') with adjoint_method omitted: backward silently uses midpoint"),
+ 'C01b': ('C01', "SRK.diagonal_or_scalar_step: stage time hoisted into one variable, so the diffusion is evaluated at the drift abscissa C0 instead of C1", "method='srk', Ito, diagonal or scalar noise, diffusion with explicit time dependence (order 1.5 -> 1.0)"),
+ 'C02b': ('C02', "grad-free Milstein: `g[:, 0]` instead of `g.squeeze(2)` picks the first state row instead of the single noise column and broadcasts", "method='milstein', options grad_free=True, scalar noise, state dimension >= 2"),
+ 'C05b': ('C05', "_loc_inner 'locality' shortcut: a query beginning inside the current node takes that node's share and sends only the rest to the parent, so the pieces returned depend on _last_interval", "X, then a query whose last piece lies inside a prefix of X, then X again: W/U re-assembled from children differ in the last bits"),
+ 'C06b': ('C06', "BrownianTree.__call__: `out += self._w0` mutates the tensor stored in the tree when the point query resolves to exactly one node", "BrownianTree, w0 != 0, single-argument query bm(t) with [t0, t] a single dyadic node (t = t1, t0 + (t1-t0)/2^k)"),
+ 'C08b': ('C08', "g_prod_and_gdg_prod_diagonal: create_graph only when y.requires_grad (forgets that g depends on the parameters)", "derivative Milstein, diagonal noise, plain y0 (no grad), gradients wrt diffusion parameters: first step's correction term is a constant"),
+ 'C09b': ('C09', "_f_corrected_default: per-column Ito-conversion terms overwritten in the loop, only the last diffusion column's term is added", "Ito, general noise, m >= 2, state-dependent diffusion in a column other than the last, gradients through sdeint_adjoint"),
+ 'C10b': ('C10', "_SdeintAdjointMethod.backward replaces the incoming cotangents of the returned extra solver state by zeros", "sdeint_adjoint(..., extra=True) with the reversible-Heun pair and a loss (or a continued solve) that depends on the returned (f, g, z)"),
+ 'C11b': ('C11', "AdjointSDE.g_prod_and_gdg_prod_diagonal: `.detach()` lost when hoisting v2 * g, mixed partials gain product-rule terms that cancel part of the result", "diagonal noise, Milstein on the adjoint SDE, state-dependent diffusion: adj_y and parameter parts of gdg_prod wrong"),
+ 'C13b': ('C13', "grad-free Milstein caches sqrt(dt) on the solver object at the first step (hidden per-call state)", "milstein grad_free, fixed steps, final time off the step grid with the clipped partial step in a chunk of its own"),
+ 'C15b': ('C15', "ReversibleHeun adds a space-time Levy correction prod(g0 - g1, H) to y1 for additive noise: symmetric, not antisymmetric, under reversal", "additive noise, time-dependent g, Brownian motion with levy_area_approximation != 'none'"),
+ 'C16b': ('C16', "new g_prod_and_gdg_prod_scalar registered for scalar noise computing the Milstein term as a VJP (J^T g v) instead of a JVP", "scalar noise, derivative Milstein, state dimension >= 2, non-symmetric diffusion Jacobian"),
+ 'C17b': ('C17', "update_step_size gains an `order` argument fed with solver.strong_order, which depends on the declared noise type", "adaptive=True; solvers whose strong_order differs between the special and the general declaration: meshes differ"),
+ 'C18b': ('C18', "parse_return: `log_ratio[1:] - log_ratio[:1]` instead of `[:-1]`: cumulative values instead of per-interval increments", "logqp=True with >= 3 output times (rows after the first are cumulative)"),
+ 'C20b': ('C20', "dg_ga_jvp_column_sum_v2 made the default and `repeat_interleave` replaced by `repeat`: Jacobian rows evaluated at another batch row's state", "method='log_ode', general noise, davie/foster Levy area, batch >= 2, m >= 2, rows with different states"),
  'C20': ('C20', "Levy-area noise drawn at size[1:-1] + (m, m) and broadcast over the batch", "davie/foster, batch >= 2, m >= 2: all batch rows share the Levy-area noise (marginals unchanged)"),
 }
 for sid, (prop, what, needs) in INFO.items():
@@ -37,7 +51,8 @@ for sid, (prop, what, needs) in INFO.items():
     meta = {'property': prop, 'change': what, 'needs_to_manifest': needs, 'files': ['patch.diff', [f for f in os.listdir(d) if f.startswith('demo')][0]]}
     ran = {}
     try:
-        r = json.load(open(f'/tmp/mut_{sid}.json'))
+        cands = [f for f in (f'/tmp/mut_{sid}.json', f'/tmp/mutall_{sid}.json') if os.path.exists(f)]
+        r = json.load(open(max(cands, key=os.path.getmtime)))
         ran['demo_on_unchanged_worktree_exit'] = r.get('demo_without_change')
         ran['demo_with_change_exit'] = r.get('demo_with_change')
         ran['checks_against_changed_worktree'] = {k: {'exit': v['exit'], 'wall_s': v['wall_s'], 'first_lines': v['lines'][:3]} for k, v in r.get('checks', {}).items()}
